@@ -18,6 +18,11 @@ TEXT = {
  "C10": ("6 C10", T + "Locate events (all lattice queries x all hints) validated against DelaunayAPI!Locate with exact closed-simplex containment and exact hull sidedness"),
  "C11": ("6 C11", T + "HullFresh model-checked on Caches.tla; generated histories with hull creation/queries replayed and compared; HullCreate/HullQuery events validated against Boundary(K) and exact visibility, staleness after every kind of mutation"),
  "C13": ("6 C13", T + "SerDe events validated against DelaunayAPI!SerDeOK (uuid, coordinate bits, data, cells, neighbour relation, equality, verdicts) and twin continuation Compare events"),
+ "C12": ("6 C12", T + "Pred events (every tuple x permutation x formulation x kernel) judged against exact integer determinants in the library's documented sign convention, with the tolerance band computed in the spec (Pure.tla: DecOrient / DecSphere / ZeroOrientOK); exhaustive on the 3x3 grid, the unit cube in the thorough tier"),
+ "C14": ("6 C14", T + "history variable memo[determinism key] over repeated, permuted, re-ordered, threaded and cross-process constructions; Canon events require K = DT(S) in general position"),
+ "C16": ("6 C16", T + "toroidal Construct / Insert events validated against exact modular arithmetic (w = m mod L), the half-open box, idempotence, and the C01 certificate of the wrapped set. The periodic image-point mode (closed surface, chi = 0) is NOT covered by this revision"),
+ "C17": ("6 C17", T + "complete Hilbert index tables (bijection onto 0..N-1, unit steps) for all small grids D=1..5, permutation contract of every ordering strategy, exact/epsilon dedup contracts of all seven variants, on lattice inputs with ties, signed zeros and near duplicates"),
+ "C18": ("6 C18", T + "Gen_Measures: TLC enumerates simplices with exact integer ingredients (determinant, facet Gram determinants, Cramer numerators); each is replayed five times (permutation, translation, scaling) and the library's f64 results are compared with the exact values (relative 1e-9) in the harness; TLC re-derives determinant and degeneracy class of every replayed vector"),
  "C15": ("6 C15", T + "Queries events validated against face enumeration (Topology.tla) of the logged cells"),
 }
 LEVEL_NOTE = ("Trusted: TLC; the TLA+ text of spec/ (Geometry, Topology, DelaunayAPI, Caches); the harness projection "
